@@ -110,3 +110,72 @@ def c12c_includes(ex, st, big, small):
         except z3.Z3Exception:
             pass
     return v_bool(z3.ForAll([j], body))
+
+
+def _forall(vs, body, pat):
+    from pyvc.state import pattern_ok
+    if pattern_ok(pat):
+        try:
+            return z3.ForAll(vs, body, patterns=[pat])
+        except z3.Z3Exception:
+            pass
+    return z3.ForAll(vs, body)
+
+
+# ---- BIOGEME._audit: where the errors of each formula sit in the collected list ---------------------------------
+def _audit_terms(ex, st, d, db):
+    from pyvc.vals import B, Val
+    from specs.c12_audit import SEQ
+    r = as_ref(d)
+    # the dictionary of formulas AS IT WAS WHEN THE FUNCTION WAS ENTERED (modifies=[]: the frame obligations show it is never changed)
+    st.field('$elems'), st.field('$map')
+    keys, mp = z3.Select(st.heap0['$elems'], r), z3.Select(st.heap0['$map'], r)
+    dt = ex.box(st, db)
+    F = lambda q: z3.Select(mp, z3.Select(keys, q))
+    flag = lambda name, q: z3.If(uf('c12c.misplaced_' + name, Val, B)(F(q)), 1, 0)
+    nerr = lambda q: uf('C12.err_len', Val, Val, I)(F(q), dt)
+    earr = lambda q: uf('C12.err_arr', Val, Val, SEQ)(F(q), dt)
+    S = uf('c12c.audit_upto', keys.sort(), mp.sort(), Val, I, I)
+    N = lambda q: S(keys, mp, dt, q)
+    return F, flag, nerr, earr, N
+
+
+@spec('c12c_audit_upto')
+def c12c_audit_upto(ex, st, d, db, k):
+    """number of errors BIOGEME._audit has collected after the first k formulas of the dictionary d:
+       N(0) = 0,  N(q+1) = N(q) + [misplaced draws in formula q] + [misplaced random variable in formula q] + aud_nerr(formula q, db)"""
+    F, flag, nerr, earr, N = _audit_terms(ex, st, d, db)
+    kt = as_int(k)
+    q = z3.Int(fresh_name('q'))
+    step = lambda t: flag('draws', t) + flag('rv', t) + nerr(t)
+    st.assume(N(z3.IntVal(0)) == 0)
+    ax = _forall([q], z3.Implies(q >= 0, z3.And(N(q + 1) == N(q) + step(q), nerr(q) >= 0, N(q) >= 0)), N(q + 1))
+    if not any(ax.eq(h) for h in st.pc[-80:]):
+        st.pc.append(ax)
+    st.assume(z3.Implies(kt > 0, z3.And(N(kt) == N(kt - 1) + step(kt - 1), nerr(kt - 1) >= 0, N(kt - 1) >= 0)))
+    # definition of the two boolean observers (see _misplaced) at the formula just audited
+    from pyvc.vals import B, Val
+    from specs.c12_audit import KINDS, DOM
+    x = z3.Const(fresh_name('x'), Val)
+    for kind in ('draws', 'rv'):
+        ft = F(kt - 1)
+        st.assume(uf('c12c.misplaced_' + kind, Val, B)(ft) == z3.Exists([x], z3.Select(uf(KINDS[kind], Val, DOM)(ft), x)))
+    return v_int(N(kt))
+
+
+@spec('c12c_audit_in_order')
+def c12c_audit_in_order(ex, st, lst, d, db, K):
+    """the errors of the audit of each of the first K formulas sit in `lst`, one formula after the other, after the (at most two)
+       placement errors of that formula:   forall q < K, j < aud_nerr(formula q):  lst[N(q) + flags(q) + j] == aud_err(formula q)[j]"""
+    from pyvc import lib
+    ln, la, _ = lib.seq_parts(ex, st, lst)
+    F, flag, nerr, earr, N = _audit_terms(ex, st, d, db)
+    c12c_audit_upto(ex, st, d, db, K)
+    Kt = as_int(K)
+    q, j = z3.Int(fresh_name('q')), z3.Int(fresh_name('j'))
+    off = N(q) + flag('draws', q) + flag('rv', q)
+    bounded = _forall([q], z3.Implies(z3.And(q >= 0, q < Kt), z3.And(N(q + 1) <= ln, N(q + 1) == N(q) + flag('draws', q) + flag('rv', q) + nerr(q),
+                                                                     nerr(q) >= 0, N(q) >= 0)), N(q + 1))
+    placed = _forall([q, j], z3.Implies(z3.And(q >= 0, q < Kt, j >= 0, j < nerr(q)), z3.Select(la, off + j) == z3.Select(earr(q), j)),
+                     z3.Select(earr(q), j))
+    return v_bool(z3.And(bounded, placed))
